@@ -485,6 +485,94 @@ func (c *effectCtx) fnEffect(fn *ssa.Function, depth int) string {
 	return ""
 }
 
+// c10R9: (flow, error) results of flows/definition: nil flow with a non-nil error.
+func c10R9(p *core.Program, r *core.Report) {
+	n := 0
+	for _, fn := range p.ModuleFunctions() {
+		if core.RelPkg(core.FuncPkgPath(fn)) != "flows/definition" || p.IsTestFile(fn.Pos()) || fn.Synthetic != "" || fn.Blocks == nil {
+			continue
+		}
+		res := fn.Signature.Results()
+		if res.Len() != 2 || res.At(1).Type().String() != "error" {
+			continue
+		}
+		t0 := core.ShortType(res.At(0).Type())
+		if !strings.HasSuffix(t0, "flows.Flow") && !strings.HasSuffix(t0, "definition.flow") {
+			continue
+		}
+		n++
+		bad := ""
+		// the points where the two results are decided: the return itself, or — when a defer makes go/ssa spill the
+		// results into cells — the blocks that store both cells
+		type point struct {
+			b      *ssa.BasicBlock
+			r0, r1 ssa.Value
+			pos    token.Pos
+		}
+		var points []point
+		for _, ret := range core.Returns(fn) {
+			if len(ret.Results) != 2 {
+				continue
+			}
+			l0, ok0 := ret.Results[0].(*ssa.UnOp)
+			l1, ok1 := ret.Results[1].(*ssa.UnOp)
+			if ok0 && ok1 && l0.Op == token.MUL && l1.Op == token.MUL {
+				a0, isA0 := l0.X.(*ssa.Alloc)
+				a1, isA1 := l1.X.(*ssa.Alloc)
+				if isA0 && isA1 {
+					for _, b := range fn.Blocks {
+						var v0, v1 ssa.Value
+						var at token.Pos
+						for _, in := range b.Instrs {
+							if st, ok := in.(*ssa.Store); ok {
+								if st.Addr == ssa.Value(a0) {
+									v0, at = st.Val, st.Pos()
+								}
+								if st.Addr == ssa.Value(a1) {
+									v1 = st.Val
+								}
+							}
+						}
+						if v0 != nil && v1 != nil {
+							points = append(points, point{b, v0, v1, at})
+						}
+					}
+					continue
+				}
+			}
+			points = append(points, point{ret.Block(), ret.Results[0], ret.Results[1], ret.Pos()})
+		}
+		for _, pt := range points {
+			if core.IsNilConst(pt.r1) || core.IsNilConst(pt.r0) {
+				continue
+			}
+			// the error may be non-nil here unless the point is on the nil edge of a test of that very error
+			onNilEdge := false
+			for _, ce := range core.ControllingConds(pt.b) {
+				if bo, ok := ce.Cond.(*ssa.BinOp); ok && (bo.Op == token.EQL || bo.Op == token.NEQ) {
+					if (bo.X == pt.r1 && core.IsNilConst(bo.Y)) || (bo.Y == pt.r1 && core.IsNilConst(bo.X)) {
+						if (bo.Op == token.EQL) == ce.Taken {
+							onNilEdge = true
+						}
+					}
+				}
+			}
+			// forwarding both results of one call of another such function is that function's obligation
+			if e0, ok := pt.r0.(*ssa.Extract); ok {
+				if e1, ok := pt.r1.(*ssa.Extract); ok && e0.Tuple == e1.Tuple {
+					onNilEdge = true
+				}
+			}
+			if !onNilEdge {
+				bad = p.Pos(pt.pos)
+			}
+		}
+		r.Check(bad == "", "R9", core.FuncName(fn)+"/nil-flow-with-error", p.Pos(fn.Pos()), "a possibly non-nil error is returned with the nil flow only", core.FuncName(fn)+" returns a flow together with an error that may be non-nil ("+bad+"): callers that keep the flow and test it for nil treat an unloadable flow as loaded")
+	}
+	r.Count("flow_and_error_functions", n)
+	r.Require("flow_and_error_functions", n, 3)
+}
+
 func checkC10(p *core.Program, r *core.Report) {
 	r.Rule("R1", "nothing happens before a rejection: on every path of Resume/tryToResume that ends in `return ..., newError(...)` (or forwards a rejection of tryToResume), no instruction or callee writes a persisted session/run/step/contact/sprint field (only the transient session.parentRun is allowed)")
 	r.Rule("R2", "accept before apply: the stores to session.status/currentResume, Resume.Apply, the group re-evaluation and the loop call are dominated by the edge on which Wait.Accepts(resume) is true")
@@ -865,6 +953,8 @@ func checkC10(p *core.Program, r *core.Report) {
 	c10R7(p, r)
 
 	// ------------------------------------------------------------------ R8 a tolerated error stays tolerated
+	r.Rule("R9", "no flow comes with an error: every function of flows/definition that returns (a flow, error) returns the nil flow wherever the error it returns can be non-nil — the run readers keep whatever Flows().Get returned and tryToResume tells a run whose flow could not be loaded by Flow() == nil; a half-built flow handed back together with its validation error passes that test, the resume is accepted and applied, and the session is left active by the Go error that follows")
+	c10R9(p, r)
 	r.Rule("R8", "an error that was tolerated is not reported later: in the readers and the engine (flows, flows/runs, flows/engine), where an error value was tested and the failing branch carried on (a missing flow is reported to the missing-asset callback and reading continues), that same value does not reach a later `err != nil` test that returns it — merging it with a later assignment under one test turns a session restored without its flow into a Go error")
 	c10R8(p, r)
 
